@@ -17,7 +17,8 @@ for line in open("properties.jsonl"):
 checks = []
 claimed = set()
 for fn in sorted(os.listdir("props")):
-    if not (fn.startswith("c") and fn.endswith(".py")):
+    import re as _re
+    if not _re.match(r"c\d+\.py$", fn):
         continue
     p = importlib.import_module("props." + fn[:-3]).PROP
     if not getattr(p, "claimed", True):
